@@ -125,6 +125,27 @@ def kinds_of(prog):
     return ks
 
 
+def shape_key(prog):
+    """signature for stratified selection: statement kinds + where the uses (and deletions) stand"""
+    uses = []
+
+    def blk(b, where):
+        seen_compound = False
+        for s in b:
+            t = s["t"]
+            if t in ("read", "del", "cread", "cex", "comp"):
+                uses.append("%s@%s%s" % (t, where, "+" if seen_compound else ""))
+            if t in COMPOUND:
+                seen_compound = True
+                blk(s["a"], t + ".a")
+                for h in s["hs"]:
+                    blk(h["a"], t + ".h")
+                blk(s["b"], t + ".b")
+                blk(s["f"], t + ".f")
+    blk(prog, "top")
+    return "+".join(sorted(kinds_of(prog))) + "|" + ",".join(sorted(uses))
+
+
 def cell_vars(prog):
     return sorted({s["v"] for s in walk(prog) if s["t"] == "cread"})
 
